@@ -191,7 +191,18 @@ func (ex *Exec) assume(t *sym.Term) {
 		ex.assumes++
 		return
 	}
-	r, _ := ex.solver.Check(t, nil)
+	if kv, ok := ex.knownVal(t); ok && kv {
+		return
+	}
+	if mv, ok := ex.modelVal(t); ok && mv == 1 {
+		ex.assertPC(t)
+		ex.assumes++
+		return
+	}
+	r, m := ex.solver.Check(t, ex.ctx.Vars())
+	if r == sym.Sat {
+		ex.setModel(m)
+	}
 	switch r {
 	case sym.Unsat:
 		panic(pathEnd{endInfeasible, "assumption unsatisfiable on this path"})
@@ -211,8 +222,24 @@ func (ex *Exec) assert(fr *frame, site ssa.Instruction, t *sym.Term, msg string)
 	if t.IsTrue() {
 		return
 	}
+	if kv, ok := ex.knownVal(t); ok && kv {
+		return
+	}
 	ex.checkDeadline()
-	r, _ := ex.solver.Check(ex.ctx.BNot(t), nil)
+	r := sym.Unknown
+	if mv, ok := ex.modelVal(t); ok && mv == 0 {
+		r = sym.Sat // the cached model of the path condition falsifies the assertion
+		if ex.cfg.Debug {
+			r2, _ := ex.solver.Check(ex.ctx.BNot(t), nil)
+			if r2 != sym.Sat {
+				fmt.Printf("MODEL-BUG: model %v falsifies %s but solver says %v\n", ex.model, sym.Dump(t), r2)
+				r3, _ := ex.solver.Check(nil, nil)
+				fmt.Printf("   PC alone: %v; trace=%v\n", r3, ex.trace)
+			}
+		}
+	} else {
+		r, _ = ex.solver.Check(ex.ctx.BNot(t), nil)
+	}
 	switch r {
 	case sym.Unsat:
 		ex.assertPC(t)
